@@ -208,6 +208,9 @@ def deep_copy(v):
         return Agg(v.kind, v.name, [deep_copy(x) for x in v.fields], v.fnames)
     if isinstance(v, Enum):
         return Enum(v.name, v.variant, v.idx, [deep_copy(x) for x in v.fields])
+    if getattr(v, 'model_name', None) == 'IterModel':
+        # iterator adapters are never Copy: a MIR `copy` of one is a move the optimiser relaxed
+        return v
     if hasattr(v, 'clone_model'):
         return v.clone_model()
     return v
